@@ -97,6 +97,11 @@ def run(model, col, tier):
               "IR imports are recorded and exposed", f"AddImport stores into {fld} but Imports returns {ret}", IR, ia)
     lk = model.cls(IR, "Linker")
     addm = lk.own_method("AddModule")
+    if addm is not None:
+        # a private helper that merges one table is read in place
+        from ..sem import expand_helpers as _xh16
+
+        addm = _xh16(model, lk, addm)
     upd = [c for c in ast.walk(addm) if isinstance(c, ast.Call) and last_attr(c) in ("update", "extend") and c.args and "Imports" in unparse(c.args[0])]
     col.check(bool(upd), "R16.1", f"{IR}::Linker.AddModule collects imports", "the module's imports are added to the pending imports", "the linker does not collect a module's imports", IR, addm)
     pending = upd[0].func.value.attr if upd else None
@@ -215,6 +220,8 @@ def run(model, col, tier):
     for mname_, m_ in lk.methods.items():
         for n in ast.walk(m_):
             if isinstance(n, ast.Attribute) and isinstance(n.value, ast.Name) and n.value.id == "self" and n.attr.startswith("__") and not n.attr.endswith("__") and isinstance(n.ctx, ast.Load):
+                if lk.find_method(n.attr) is not None or lk.find_method(mangle(lk.name, n.attr)) is not None:
+                    continue  # a private method, not a field
                 col.check(n.attr in stored, "R16.3", f"{IR}::Linker.{mname_} reads self.{n.attr}", "initialised in __init__",
                           f"`self.{n.attr}` is read in Linker.{mname_} but never initialised: AttributeError as soon as this path runs (e.g. the first import that is loaded)", IR, n)
     addcalls = [c for c in ast.walk(link) if isinstance(c, ast.Call) and last_attr(c) == "AddModule"]
